@@ -17,6 +17,9 @@ CHECKS = {
     "C03": dict(text="relational: run_subparser executed from MIR on a symbolic argv and on its neighbour-transposed variant in one path; Z3 shows equal class and value for every allowed transposition",
                 note="bounds: 2..3 argv words quick / ..4 thorough, 10 grammars; vectors with a dangling argument name are skipped (no decomposition into whole occurrences)",
                 tech=MIRSYM + ", relational (2-execution) query", ref="DESIGN.md 4/C03"),
+    "C04": dict(text="reachability of panic / exit / bound-exhaustion paths: run_subparser on 19 grammars with the error path executed from MIR (Message::render, summarize_missing, only_once, conflicts, Doc builders, core::fmt interpreted), State::check_complete for revisions 0/1/7/8/9 with and without a name, repetition wrappers with a nondeterministic inner parser (termination), adjacency index kernels from arbitrary states, and a two-run purity check",
+                note="bounds: <=2 argv words quick / <=3 thorough for rendering; typo suggester, help rendering, candidate generation and shell renderers are cut; termination = no path exhausts the 1.5M-statement budget; one defect found and fixed (completion rev 9 without a name)",
+                tech=MIRSYM + ", panic-path reachability", ref="DESIGN.md 4/C04"),
     "C05": dict(text="ledger lemmas of State::{remove,set_scope,take_*} from an arbitrary symbolic state, wrapper contracts with a nondeterministic inner parser, and Ok => all-items-Parsed / value provenance / declared-names on the whole corpus (groups, alternatives, adjacent groups, subcommands)",
                 note="lemma counterexamples are internal states (reported with the solver model, not replayable through the public API); corpus bounds <=3 argv words quick / <=4 thorough",
                 tech=MIRSYM + ", inductive-step lemmas + corpus obligations", ref="DESIGN.md 4/C05"),
